@@ -85,7 +85,7 @@ def run_value(ctx):
         if ctx.tier == "thorough":
             ctx.leanchecker("Slock.Properties.C15Value")
             ctx.leanchecker("Slock.Properties.C13Value")
-    n = 6000 if ctx.tier == "quick" else 150000
+    n = 30000 if ctx.tier == "quick" else 400000
     exe = build_value_harness(ctx)
     if not exe:
         return
